@@ -127,3 +127,25 @@ def evalPath (nested : List (List NJ)) (sel : List Nat) (comps : List Comp) : CM
       | .ok vs => .ok (i, vs)) sel
 
 end Bufr.Spec
+
+namespace Bufr.Spec
+
+/-- CPython's `slice(a, b, step).indices(n)` (`PySlice_AdjustIndices`), `step ≠ 0`: the pair `(start, stop)`;
+    `range(start, stop, step)` lists the selected positions -/
+def pyIndices (a b : Option Int) (step : Int) (n : Nat) : Int × Int :=
+  let lower : Int := if step < 0 then -1 else 0
+  let upper : Int := if step < 0 then (n : Int) - 1 else n
+  let norm := fun (x : Int) => if x < 0 then max (x + n) lower else min x upper
+  let start := match a with
+    | none => if step < 0 then upper else lower
+    | some a => norm a
+  let stop := match b with
+    | none => if step < 0 then lower else upper
+    | some b => norm b
+  (start, stop)
+
+/-- `k ∈ range(start, stop, step)` -/
+def inPyRange (start stop step : Int) (k : Int) : Prop :=
+  ∃ j : Nat, k = start + j * step ∧ (if 0 < step then k < stop else stop < k)
+
+end Bufr.Spec
